@@ -13,7 +13,8 @@ THEOREMS = {
     "C08": ["C08_tx_count_le_limit", "C08_limit_formula", "C08_backoff_delay_bound", "C08_retry_ladder", "C08_backoff_across_commands", "C08_tx_after_answer_refuted", "C08_caps_as_stated",
             "C08_queue_ordered", "C08_next_is_least_pending", "C08_priority_then_arrival_witness",
             "C08_one_in_flight", "C08_current_is_holder", "C08_one_in_flight_nonvacuous", "C08_slot_changes_hands"],
-    "C09": ["C09_no_crash_refuted", "C09_counters_consistent_partial", "C09_caller_wake_answers", "C09_cancel_schedules_wake", "C09_cancelled_caller_answered"],
+    "C09": ["C09_no_crash_refuted", "C09_counters_consistent_partial", "C09_caller_wake_answers", "C09_cancel_schedules_wake", "C09_cancelled_caller_answered",
+            "C09_at_rest_not_waiting", "C09_at_rest_nonvacuous"],
 }
 
 RULE = ("scenarios = timed external events over the alphabet {connection made/lost, caller i sends (priority, max_retries 0-5, "
